@@ -38,6 +38,8 @@ RdNames(rr) ==
 Feature(rrset) ==
   IF rrset[1].name = <<Star>> THEN "wildcard-at-root"
   ELSE IF Len(rrset[1].name) >= 1 /\ Len(rrset[1].name[1]) > 1 /\ rrset[1].name[1][1] = 42 THEN "star-prefixed-label"
+  ELSE IF \E i \in 1..Len(rrset) : LenRR(rrset[i]) > 4096 THEN "record-over-4096-octets"     \* larger than the library's DefaultMsgSize
+  ELSE IF \E i \in 1..Len(rrset) : LenRR(rrset[i]) > 512 THEN "record-over-512-octets"       \* ... MinMsgSize
   ELSE IF \E i \in 1..Len(rrset) : \E n \in RdNames(rrset[i]) : HasUpper(n) THEN "rdata-name-uppercase"
   ELSE IF IsWildcard(rrset[1].name) THEN "wildcard-owner"
   ELSE IF HasUpper(rrset[1].name) THEN "owner-uppercase"
